@@ -67,16 +67,25 @@ def _keys_expr_kind(e: ast.AST, conv) -> Optional[str]:
     e = strip_calls(e, ("int", "float"))
     t = unparse(e)
     # <x>.stack().column.max() + 1
-    if isinstance(e, ast.BinOp) and isinstance(e.op, ast.Add):
-        a, b = (e.left, e.right) if isinstance(e.right, ast.Constant) else (e.right, e.left)
-        if isinstance(b, ast.Constant) and b.value == 1 and isinstance(a, ast.Call) and call_name(a) == "max":
+    def colmax(a):
+        if isinstance(a, ast.Call) and call_name(a) == "max" and unparse(a.func.value).endswith(".column"):
             base = unparse(a.func.value)
-            if base.endswith(".column") and (".stack()" in base or ".hits" in base or ".holds" in base):
-                if ".stack()" in base:
-                    return "column-max+1"
-                return None
-        if isinstance(b, ast.Constant) and isinstance(a, ast.Call) and call_name(a) == "max":
-            return f"column-max+{b.value}"
+            if ".stack()" in base:
+                stack_call = [c for c in ast.walk(a) if isinstance(c, ast.Call) and call_name(c) == "stack"]
+                if stack_call and (stack_call[0].args or stack_call[0].keywords):
+                    return "only some list types (" + unparse(stack_call[0]) + ")"
+                return "all"
+            return "only " + base.rsplit(".", 2)[-2]
+        return None
+    if colmax(e):
+        return "column-max+0" if colmax(e) == "all" else f"partial:{colmax(e)}"
+    if isinstance(e, ast.BinOp) and isinstance(e.op, (ast.Add, ast.Sub)):
+        a, b = (e.left, e.right) if isinstance(e.right, ast.Constant) else (e.right, e.left)
+        if isinstance(b, ast.Constant) and colmax(a):
+            if colmax(a) != "all":
+                return f"partial:{colmax(a)}"
+            inc = b.value if isinstance(e.op, ast.Add) else -b.value
+            return "column-max+1" if inc == 1 else f"column-max+{inc}"
     if isinstance(e, ast.Call) and call_name(e) == "get_keys" and e.args:
         owner = unparse(e.func.value)
         arg = unparse(e.args[0])
@@ -88,6 +97,17 @@ def _keys_expr_kind(e: ast.AST, conv) -> Optional[str]:
     if t.endswith(".circle_size"):
         return "osu-circle-size"
     return None
+
+
+def _why_bad(k: str) -> str:
+    if k.startswith("partial:"):
+        return (f"the key count is taken from the highest column of {k[8:]}: a chart whose highest column holds only "
+                f"objects of another list is written with too few keys")
+    if k.startswith("column-max+"):
+        return f"the key count of columns 0..max is max + 1, not max + {k[11:]}"
+    if k.startswith("wrong-table:"):
+        return f"the source's key field is looked up in another game's table: {k[12:]}"
+    return f"key count is derived as '{k}'"
 
 
 def _assignments(conv, field: str) -> List[Tuple[ast.Assign, ast.Attribute]]:
@@ -125,7 +145,7 @@ def rule_r2(ctx) -> List[R.Inst]:
                 if k in ("column-max+1", "qua-mode->keys", "sm-type->keys", "osu-circle-size"):
                     why = k
                 elif k:
-                    insts.append(R.viol(rid, key, conv.file, st.lineno, f"key count is derived as '{k}'", construct=unparse(st)))
+                    insts.append(R.viol(rid, key, conv.file, st.lineno, _why_bad(k), construct=unparse(st)))
                     continue
         elif conv.tgt_game == "qua":
             if unparse(v).endswith("QuaMapMode.KEYS_7") and conv.src_game in SEVEN_LANE_SOURCES:
@@ -135,7 +155,7 @@ def rule_r2(ctx) -> List[R.Inst]:
                 if k in ("column-max+1", "qua-mode->keys", "sm-type->keys", "osu-circle-size"):
                     why = f"QuaMapMode.get_mode({k})"
                 elif k:
-                    insts.append(R.viol(rid, key, conv.file, st.lineno, f"key count is derived as '{k}'", construct=unparse(st)))
+                    insts.append(R.viol(rid, key, conv.file, st.lineno, _why_bad(k), construct=unparse(st)))
                     continue
         elif conv.tgt_game == "sm":
             if isinstance(v, ast.Call) and call_name(v) == "get_type" and unparse(v.func.value).endswith("SMMapChartTypes") and v.args:
@@ -143,7 +163,7 @@ def rule_r2(ctx) -> List[R.Inst]:
                 if k in ("column-max+1", "qua-mode->keys", "sm-type->keys", "osu-circle-size"):
                     why = f"SMMapChartTypes.get_type({k})"
                 elif k:
-                    insts.append(R.viol(rid, key, conv.file, st.lineno, f"key count is derived as '{k}'", construct=unparse(st)))
+                    insts.append(R.viol(rid, key, conv.file, st.lineno, _why_bad(k), construct=unparse(st)))
                     continue
         if why:
             # the source of the derivation must be the source chart (or the per-chart loop variable over it)
